@@ -34,6 +34,13 @@ Clauses
 All runs use a Dither pre-processor and a fixed --seed, so a seed that depends on the resume state shows up
 in C10.resume.identical.  Exact equality throughout (no tolerance).
 
+Pre-processor chains: "with a fixed --seed this includes randomised pre-processing (dither)" and "The output is
+independent of --num-workers" are stated for whatever --preprocess holds, so the configurations put the random
+pre-processor alone (list and single-dict spelling), last, FIRST (dither -> preemphasis), in the MIDDLE of three, at
+both ends, and twice in a row before a deterministic one (CONFIGS / RANDOM_POSITION); each of them gets a kill + re-run
+scenario and a --num-workers comparison (some as one scenario: killed with w workers, re-run with w' != w), all in
+separate interpreter processes compared with an uninterrupted --num-workers 0 process.
+
 Input classes ("over all utterance counts / any valid map", "with a fixed --seed"):
   * utterance ids are NOT fixed-width: within each id set some id is a proper prefix / suffix / infix of an id
     that comes EARLIER in the map (so the longer one is already listed when the kill happens and the shorter one
@@ -65,19 +72,43 @@ ASSUMPTIONS = [
     "not covered: OS-level durability (fsync), torn manifest lines, concurrent invocations on one directory",
 ]
 
+_STFT = {
+    "name": "stft",
+    "bank": {"name": "fbank", "num_filts": 5, "sampling_rate": 8000},
+    "frame_length_ms": 25,
+    "frame_shift_ms": 10,
+}
 CONFIGS = {
     # name: (computer config or None, preprocess config, postprocess config)
     "stft_dither_deltas": (
-        {
-            "name": "stft",
-            "bank": {"name": "fbank", "num_filts": 5, "sampling_rate": 8000},
-            "frame_length_ms": 25,
-            "frame_shift_ms": 10,
-        },
+        dict(_STFT),
         ["dither"],
         [{"name": "deltas", "num_deltas": 1}],
     ),
     "raw_preemph_dither": (None, [{"name": "preemph", "coeff": 0.9}, {"name": "dither", "coeff": 2.0}], []),
+    # "with a fixed --seed this includes randomised pre-processing (dither)" / "independent of --num-workers" are stated
+    # for every --preprocess value, so the random element also stands FIRST (the usual Kaldi chain dither -> preemphasis),
+    # in the MIDDLE, at BOTH ENDS of a chain, and alone as a single dict (the option accepts a dict instead of a list)
+    "stft_dither_preemph": (_STFT, ["dither", "preemphasize"], []),
+    "raw_preemph_dither_preemph": (
+        None,
+        [{"name": "preemph", "coeff": 0.5}, {"name": "dither", "coeff": 3.0}, {"name": "preemphasis", "coeff": 0.9}],
+        [],
+    ),
+    "stft_dict_dither": (_STFT, {"name": "dithering", "coeff": 1.5}, [{"name": "deltas", "num_deltas": 1}]),
+    "raw_dither_preemph_dither": (None, [{"name": "dither", "coeff": 2.0}, "preemph", "dither"], []),
+    "stft_dither_dither_preemph": (_STFT, ["dither", {"name": "dither", "coeff": 0.5}, {"name": "preemph", "coeff": 0.97}], []),
+    "raw_dict_list_dither_first": (None, [{"name": "dither", "coeff": 4.0}, {"name": "preemph"}, {"name": "preemph", "coeff": 0.5}], []),
+}
+RANDOM_POSITION = {  # where the random pre-processor stands in the chain (for the notes)
+    "stft_dither_deltas": "only",
+    "raw_preemph_dither": "last",
+    "stft_dither_preemph": "first",
+    "raw_preemph_dither_preemph": "middle",
+    "stft_dict_dither": "only, as a dict",
+    "raw_dither_preemph_dither": "first and last",
+    "stft_dither_dither_preemph": "first and second of three",
+    "raw_dict_list_dither_first": "first of three",
 }
 
 IDS = ["utt_b", "a-1", "zz.9", "M"]  # default of cases recorded before `ids` became part of the case
@@ -386,7 +417,7 @@ def _scenario(fx, case):
         if not msg and sorted(_manifest_lines(rundir)) != sorted(fx.ids):
             msg = f"manifest {_manifest_lines(rundir)}"
         if msg:
-            fails.append(("C10.workers.identical", f"--num-workers {case['workers']} vs 0: {msg}"))
+            fails.append(("C10.workers.identical", f"--preprocess {json.dumps(CONFIGS[fx.config][1])}: --num-workers {case['workers']} vs 0: {msg}"))
         return fails, info
     listed_before = []  # ids listed before the run about to start
     stats_before = {}
@@ -434,7 +465,7 @@ def _scenario(fx, case):
                 elif isinstance(on_disk[name], Exception):
                     fails.append(("C10.I1.listed_complete", f"after {stage}: {u!r} is listed but its file does not load: {on_disk[name]}"))
                 elif not _tensors_equal(on_disk[name], ref[name]):
-                    fails.append(("C10.I1.listed_complete", f"after {stage}: {u!r} is listed but its file differs from the uninterrupted run"))
+                    fails.append(("C10.I1.listed_complete", f"--preprocess {json.dumps(CONFIGS[fx.config][1])}: after {stage}: {u!r} is listed but its file differs from the uninterrupted run"))
             # I2
             completed = [u for u in listed_before] + ended
             missing = [u for u in completed if u not in listed and u != in_flight]
@@ -450,7 +481,8 @@ def _scenario(fx, case):
             if not msg and sorted(set(listed)) != sorted(fx.ids):
                 msg = f"manifest after the final run lists {listed}, expected every utterance of {fx.ids}"
             if msg:
-                fails.append(("C10.resume.identical", f"after {stages} and a re-run: {msg}"))
+                wtxt = "" if workers == case["workers"] == 0 else f" (killed run(s) --num-workers {case['workers']}, re-run --num-workers {workers})"
+                fails.append(("C10.resume.identical", f"--preprocess {json.dumps(CONFIGS[fx.config][1])}: after {stages} and a re-run{wtxt}: {msg}"))
         listed_before = [u for u in listed if u in fx.ids]
         stats_before = {}
         for u in listed_before:
@@ -525,6 +557,20 @@ def _plan(tier, seed):
             mk(Z, [], workers=2),
             mk(Z, [{"point": "before_save", "k": 1, "kind": S}]),
         ]
+        # pre-processor chains with the random element first / in the middle / at both ends / alone as a dict: resume
+        # identity and worker-count independence for each, first in the plan
+        crng = _common.make_rng(seed, "c10:chains:" + tier)
+        fx = lambda config, idset: dict(base(config, n, idset), data_seed=int(crng.integers(0, 2**31)), seed=int(crng.integers(0, 2**20)))  # noqa: E731
+        X1, X2 = fx("stft_dither_preemph", "letters"), fx("raw_preemph_dither_preemph", "speaker")
+        X3, X4 = fx("stft_dict_dither", "unpadded"), fx("raw_dither_preemph_dither", "letters")
+        cases[0:0] = [
+            mk(X1, [{"point": "before_save", "k": 2, "kind": H}]),
+            mk(X1, [], workers=2),
+            mk(X3, [{"point": "mid_save", "k": 2, "kind": H}], workers=0, resume_workers=2),
+            mk(X4, [{"point": "before_save", "k": 3, "kind": H}], workers=2, resume_workers=0),
+            mk(X2, [{"point": "after_save", "k": 1, "kind": S}]),
+            mk(X2, [], workers=1),
+        ]
     else:
         n = 4
         A = dict(base("stft_dither_deltas", n, "unpadded"), data_seed=int(rng.integers(0, 2**31)), seed=int(rng.integers(0, 2**20)))
@@ -557,10 +603,31 @@ def _plan(tier, seed):
             ({"point": "before_save", "k": 2, "kind": "hard"}, 0, 2),
         ):
             cases.append(mk(A, [pt], workers=w, resume_workers=rw))
+        # pre-processor chains with the random element in every position (and as a dict): every kind of kill point once,
+        # hard and soft, worker counts {1, 2}, and a resume with another worker count
+        chain_cases = []
+        rng_all, rng = rng, _common.make_rng(seed, "c10:chains:" + tier)  # own stream: the other picks stay what they were
+        for j, config in enumerate(c for c in CONFIGS if c not in ("stft_dither_deltas", "raw_preemph_dither")):
+            X = dict(base(config, n, list(ID_SETS)[j % 3]), data_seed=int(rng.integers(0, 2**31)), seed=(0 if j == 4 else int(rng.integers(0, 2**20))))
+            pts = _points(n)
+            for i, kind in ((4 + j % 4, "hard"), (9 + (j + 1) % 4, "soft"), (1 + (j + 2) % 4, "hard"), (12 + (j + 3) % 4, "soft")):
+                chain_cases.append(mk(X, [dict(pts[i], kind=kind)]))
+            chain_cases.append(mk(X, [dict(pts[5 + j % 3], kind="hard")], workers=(j % 3), resume_workers=((j + 2) % 3)))
+            for w in (1, 2):
+                chain_cases.append(mk(X, [], workers=w))
+        cases[6:6] = chain_cases
+        rng = rng_all
         # two successive kills before the final re-run (k of the second stage counts the saves of that run)
         for _ in range(8):
             p1 = dict(_points(n)[int(rng.integers(0, 4 * n))], kind=str(rng.choice(["hard", "soft"])))
             remaining = n - (p1["k"] - 1)
+            if p1["point"] == "mid_manifest" and p1["kind"] == "soft":
+                # harness: line k reaches the disk when the interrupted process closes the manifest, so the next run may
+                # have only n - k utterances left; the second kill must be reachable in either outcome
+                remaining -= 1
+            if remaining < 1:
+                cases.append(mk(A if rng.integers(0, 2) else B, [p1]))
+                continue
             p2 = dict(_points(remaining)[int(rng.integers(0, 4 * remaining))], kind=str(rng.choice(["hard", "soft"])))
             cases.append(mk(A if rng.integers(0, 2) else B, [p1, p2]))
         for kind in ("hard", "soft"):
@@ -613,12 +680,22 @@ def run(tier: str, seed: int) -> dict:
     finally:
         shutil.rmtree(root, ignore_errors=True)
     col.note(f"kill cases whose manifest was non-empty at a kill (resume skips a non-empty prefix): {n_nonempty_prefix}")
+    done = sorted({c["config"] for c in cases})
+    col.note("position of the random pre-processor in the planned --preprocess chains: " + "; ".join(f"{c}: {RANDOM_POSITION.get(c, '?')}" for c in done))
     return col.result(
         rule="one case = one scenario in subprocesses: either kill stage(s) (point, k, hard|soft) followed by a re-run of "
         "the same command to completion, or one fresh run with --num-workers w; non-trivial iff every requested kill "
         "fired (worker cases: always); each scenario is compared with an uninterrupted --num-workers 0 run",
         bound=(
-            "configs {STFT fbank + dither + deltas, raw samples + preemph + dither}, fixed --seed (random per fixture, "
+            "configs {STFT fbank + [dither] + deltas, raw samples + [preemph, dither]} for the kill-point enumeration, plus "
+            "--preprocess chains with the random element first / middle / both ends / twice then preemph / alone as a dict "
+            + (
+                "(4 chains: [dither, preemph], [preemph, dither, preemph], {dither} as a dict, [dither, preemph, dither]; each: "
+                "one kill + re-run and one worker-count comparison, two of them combined as kill with w workers / re-run with w')"
+                if tier == "quick"
+                else "(6 chains; each: 4 kill points hard/soft + re-run, one kill with changed worker count on the re-run, workers {1,2})"
+            )
+            + ", fixed --seed (random per fixture, "
             "and one fixture with --seed=0), ids containing one another with the longer id first in the map "
             f"({ID_SETS}), "
             + (
